@@ -186,6 +186,8 @@ async def sc_tunnel(loop: Any, env: Env) -> None:
     """
     from ipv8.messaging.anonymization.community import TunnelCommunity
     allf = {RELAY, EXIT_BT, EXIT_IPV8, SPEED}
+    if getattr(env, "no_ipv6", False):
+        loop.ipv6_available = False       # a host without IPv6: the second outside socket of an exit cannot be opened
     nodes = [env.node() for _ in range(4)]
     for nd in nodes:
         nd.flags = allf
@@ -411,6 +413,7 @@ SCENARIOS: dict[str, Callable] = {
     "discovery": sc_discovery,
     "dht": sc_dht,
     "tunnel": sc_tunnel,
+    "tunnel_no6": sc_tunnel,
     "hidden": sc_hidden,
     "service0": sc_service,
     "service1": sc_service,
@@ -425,7 +428,7 @@ SCENARIOS: dict[str, Callable] = {
 
 
 # scenarios used as traffic corpus by C01 / C03 (the three service variants produce the same kinds of datagrams)
-CORPUS_SCENARIOS = [n for n in SCENARIOS if n not in ("service1", "service2", "service3", "service4", "service5")]
+CORPUS_SCENARIOS = [n for n in SCENARIOS if n not in ("service1", "service2", "service3", "service4", "service5", "tunnel_no6")]
 
 
 async def run_scenario(loop: Any, name: str, env: Env | None = None) -> Env:
@@ -433,6 +436,8 @@ async def run_scenario(loop: Any, name: str, env: Env | None = None) -> Env:
     random.seed(1234)
     if name.startswith("service"):
         env.variant = int(name[7:])
+    if name.endswith("_no6"):
+        env.no_ipv6 = True
     await SCENARIOS[name](loop, env)
     return env
 
